@@ -74,6 +74,13 @@ func runConfig(repo, goos, goarch string, f propFunc, r *Report) {
 	if len(p.Pkgs) < 20 {
 		r.Fatalf("load %s: only %d module packages loaded, expected ≥ 20", cfg, len(p.Pkgs))
 	}
+	if d := os.Getenv("RV_DUMP"); d != "" {
+		for _, fn := range p.ModFuncs {
+			if strings.Contains(funcKey(fn), d) {
+				fn.WriteTo(os.Stderr)
+			}
+		}
+	}
 	f(p, r)
 	if p.cg != nil {
 		r.CGNodes = len(p.cg.Nodes)
